@@ -399,7 +399,7 @@ class Choice:
         self.alts = tuple(alts)
 
     def fp(self):
-        return ("C", tuple((tuple((f[0], repr(f[1])) if f[0] == "guard" else f for f in d), fp(v)) for d, v in self.alts))
+        return ("C", tuple((_facts_fp(d), fp(v)) for d, v in self.alts))
 
     def __repr__(self):
         return "Choice(%s)" % " | ".join(repr(v) for _d, v in self.alts)
@@ -436,6 +436,18 @@ class Opaque:
 
 
 _CACHED = None
+
+
+def _facts_fp(d):
+    out = []
+    for f in d:
+        if f[0] == "guard":
+            out.append((f[0], repr(f[1])))
+        elif f[0] == "or":
+            out.append(("or", tuple(_facts_fp(c) for c in f[1])))
+        else:
+            out.append(f)
+    return tuple(out)
 
 
 def fp(v):
@@ -544,6 +556,12 @@ def fact_atoms(f):
         return frozenset(s)
     if k == "guard":
         return f[1].get("deps", frozenset()) if isinstance(f[1], dict) else frozenset()
+    if k == "or":
+        s = frozenset()
+        for conj in f[1]:
+            for sub in conj:
+                s |= fact_atoms(sub)
+        return s
     return frozenset()
 
 
